@@ -21,6 +21,53 @@ CHECKS = {
         'stated small scope.',
         'Lean 4 proof (unbounded strings) + exhaustive small-scope/random differential correspondence with the compiled model',
         'DESIGN.md §6 C04'),
+    'C01': (
+        'Lean 4 theorems for the default factory through the whole pipeline (de-duplication, root finding, np.unique, bisect, '
+        'cached adjacency scan, row assembly, CSR slicing, worklist traversal generic in the pop discipline, mapping back to labels): '
+        'parents/children = exactly the direct is_a objects/subjects, ancestors/descendants = exactly the transitive closure, every '
+        'result duplicate-free, include_source = the source once in front, source not in its own closure on acyclic input; for the '
+        'matrix-backed graphs the same for the query layer under the hypothesis that the adjacency matrix represents the edge list. '
+        'Tie: every DAG on <= 4 positions x label assignments x 3 factories x every node x 4 queries x 2 flags, random DAG shapes, '
+        'long chains/stars, compared with the compiled model as sorted lists with multiplicity.',
+        'numpy/bisect/dict semantics modelled; that IncrementalCsrGraphFactory / CsrGraphFactory build a matrix that represents the edge '
+        'list is tied by the correspondence run only (theorems for them are stated under `Represents`); include_source=True of the '
+        'matrix graphs (source passed through the seen-set) is covered by the correspondence run only.',
+        'Lean 4 proof (unbounded edge lists, index/label transfer of closures) + exhaustive small-scope/random differential correspondence',
+        'DESIGN.md §6 C01'),
+    'C02': (
+        'Lean 4 theorems: node list = sorted duplicate-free endpoints (+ owl:Thing exactly when >= 2 parentless terms); root = the '
+        'single parentless term or owl:Thing whose children are exactly the parentless terms; root has no parents; every other node '
+        'is a descendant of the root (finite + acyclic => well-founded, Mathlib); root finding preserves acyclicity; the factory is '
+        'total on every acyclic non-empty edge list not mentioning owl:Thing; INVARIANCE: edge lists with the same edge set give the '
+        'same nodes, root and query answers up to order. Tie: metamorphic groups (all permutations and single repeats of every small '
+        'edge list, random shuffles/multisets of repeats) x 3 factories compared with the model and with each other, plus direct '
+        'structural checks of each clause on the implementation.',
+        'hypothesis owl:Thing not an endpoint of the input; at the excluded point the code fails (open known finding '
+        'owl-thing-is-parentless-endpoint). Invariance is proved for the indexed factory; for the two matrix factories it is checked '
+        'by the metamorphic correspondence run.',
+        'Lean 4 proof (invariance + root/node characterisation, Mathlib well-foundedness) + metamorphic differential correspondence',
+        'DESIGN.md §6 C02'),
+    'C03': (
+        'Lean 4 theorems for the indexed graph: each is_*_of predicate (including the two answered from the subject side) holds iff '
+        'the corresponding relation / transitive closure holds, hence iff the traversal contains the node, and parent/child, '
+        'ancestor/descendant are converses; is_leaf iff no children; idx_to_node/node_to_idx are inverse bijections on 0..n-1, '
+        'root = idx_to_node(root_idx), node-level traversals are the images of index-level ones; the generic scan of the matrix graphs '
+        'is membership by definition. Tie: all ordered pairs x 4 predicates x 4 argument forms x 3 factories against the model, plus '
+        'internal consistency (predicate vs traversal vs converse; index API vs node API) on the implementation.',
+        'agreement of the three factories is proved for the query layer only (matrix graphs under `Represents`), otherwise by the '
+        'correspondence run (all factories equal the same model); argument-form normalisation is C04.',
+        'Lean 4 proof (predicates = closure relations, index bijection) + exhaustive small-scope/random differential correspondence',
+        'DESIGN.md §6 C03'),
+    'C14': (
+        'Lean 4 theorems, both graph classes: an unknown node (any sort position; uses sortedness of the node array, proved for all '
+        'three factories) makes every traversal and is_leaf raise ValueError, predicates raise for an unknown object and answer False '
+        'for an unknown subject, membership False, node_to_idx None; rejected arguments raise ValueError everywhere; every index '
+        'outside 0..n-1 (negative included) raises ValueError in the *_idx traversals, idx_to_node and the dereferencing side of the '
+        'is_*_of_idx predicates. Tie: absent ids at every sort position / foreign prefixes, junk argument zoo, boundary integers '
+        '(python and numpy) x every method x 3 factories, outcome kinds compared with the model.',
+        'non-CURIE strings are rejected by from_curie (C04); error kind ValueError is pinned, messages are free.',
+        'Lean 4 proof (rejection paths, by sortedness + bisect spec) + differential correspondence on rejection inputs',
+        'DESIGN.md §6 C14'),
     'C17': (
         'Lean 4 theorems: for EVERY assignment history (any order, overwrites, out-of-shape attempts) the flat-array builder '
         '(__setitem__ with its scan over the whole column deque) is the CSR form of strictly column-sorted rows that read '
@@ -34,6 +81,15 @@ CHECKS = {
         'Lean 4 proof (refinement of the builder to the dense matrix, unbounded histories) + exhaustive small-scope/random '
         'differential correspondence with the compiled model',
         'DESIGN.md §6 C17'),
+    'C18': (
+        'Lean 4 theorems for every shipped graph: each helper = duplicate-free set of the graph query plus the source iff asked; '
+        'errors propagate; exists_path a b = (a != b and b in ancestors a); augment of a single term = helper of that term (for '
+        'ancestors and descendants); augment of a collection = union of the members\' helpers (empty -> empty). Tie: every node x 4 '
+        'helpers x flag x {graph, ontology, GraphAware} x {CURIE, TermId}, exists_path on all pairs, augment on single terms and '
+        'collections (list/tuple/set/frozenset, repeats, overlaps) against the model; frozenset result type required.',
+        'what the graph queries return is C01; deprecation warnings ignored.',
+        'Lean 4 proof (set semantics of the helpers over any graph) + exhaustive small-scope/random differential correspondence',
+        'DESIGN.md §6 C18'),
 }
 
 NOT_YET = {}
